@@ -33,3 +33,24 @@ PROP["components"] += LAT_PROP["components"]
 PROP["trusted_base"] = PROP["trusted_base"] + LAT_PROP["trusted_base"]
 PROP["assumptions"] = PROP["assumptions"] + LAT_PROP["assumptions"]
 PROP.setdefault("pre", []).append(facts.make_step(['cache.Target.syncts.lockset']))
+# round 2 (builder bACC): counters and latest timestamp over whole histories (Props/C15Hist.lean,
+# helper lemmas in Lemmas/CacheAccounting.lean)
+PROP["modules"] += ["Gnmi.Props.C15Hist"]
+PROP["theorems"] += ["Gnmi.C15Hist." + t for t in [
+    "unit_accounting", "units_of_shape", "multi_is_fold", "unit_one_bucket", "delete_unit_counted",
+    "empty_unit_counted", "history_accounting", "history_buckets", "gnmiUpdate_latest", "maxTs_spec",
+    "latest_is_max", "updateMeta_exports_latest", "history_exported_latest",
+    "exports_latest_leaf_needs_fresh"]] + ["Gnmi.Acc." + t for t in [
+    "gnmiUpdate1_ctr", "gnmiRemove1_ctr", "unit_delta", "multiUpdates_round", "multiDeletes_round",
+    "dispatch_multi", "dispatch_ctr", "updateMeta_ctr", "updateMetadata_get", "generateMetaUpdates_leaf"]]
+PROP["manifest"]["level_text"] += (
+    " Over whole histories (Props/C15Hist.lean): unit_accounting (for a notification of any shape - atomic, single update or delete, "
+    "several updates and deletes, empty - the eight counters move by the sum of the deltas of the outcomes of its units, each update unit "
+    "landing in exactly one of updated/suppressed/stale/future or in none when it is an error: unit_one_bucket, delete_unit_counted, "
+    "empty_unit_counted; multi-update notifications are processed as the fold of dispatch over their units: multiUpdates_round, "
+    "multiDeletes_round, dispatch_multi), history_accounting / history_buckets (in every state reachable by any API history on any number "
+    "of targets the counters of a target are the sums of these deltas since its last Add/Reset, metadata-refresh writes included), "
+    "latest_is_max (Target.ts = maximum timestamp of the accepted non-metadata notifications since Add/Reset, none if there is none) and "
+    "updateMeta_exports_latest / history_exported_latest (after updateMeta the metadata object's latestTimestamp is Target.ts, and so is the "
+    "stored meta/latestTimestamp leaf unless excluded, blocked or stale - the last condition is necessary: exports_latest_leaf_needs_fresh, "
+    "replayed against the code by corpus/C15/hist_client_written_latest_leaf.ops).")
